@@ -8,6 +8,7 @@ double 0.3, ties between genomes.
 Oracle: refmodel (first lineage taxon with threshold >= d; next = nearest threshold-bearing below; first reportable at or above).
 """
 import itertools
+import os
 from mc.core import Shard
 from mc import refmodel as R
 from mc import taxo
@@ -291,6 +292,39 @@ def t_report(N):
 						sh.nontrivial += 1
 	if reportable_taxon(None) is not None:
 		sh.violation('reportable', dict(parent=[], report=[], taxon=None), None, 'not None')
+	# persisted lineages that CROSS genome sets (a custom set whose taxa hang below the taxa of a backbone set in the same file): the walk
+	# follows parents, whatever set they belong to
+	from sqlalchemy import create_engine
+	from sqlalchemy.orm import sessionmaker
+	from gambit.db.models import Base, ReferenceGenomeSet, Taxon
+	from mc import fixtures
+	with fixtures.workdir('c03x') as d:
+		for cut in (1, 2, 3):
+			for report in itertools.product([False, True], repeat=4):
+				path = os.path.join(d, f'x{cut}-{"".join(str(int(r)) for r in report)}.gdb')
+				engine = create_engine(f'sqlite:///{path}')
+				Base.metadata.create_all(engine)
+				s = sessionmaker(engine)()
+				sets = [ReferenceGenomeSet(key='backbone', version='1', name='backbone'), ReferenceGenomeSet(key='custom', version='1', name='custom')]
+				s.add_all(sets)
+				objs = []
+				for i in range(4):
+					objs.append(Taxon(key=f't{i}', name=f'T{i}', report=report[i], genome_set=sets[0 if i < cut else 1], parent=objs[i - 1] if i else None))
+				s.add_all(objs)
+				s.commit()
+				s.close()
+				s = sessionmaker(engine)()
+				loaded = {t.key: t for t in s.query(Taxon).all()}
+				for t in range(4):
+					got = reportable_taxon(loaded[f't{t}'])
+					sh.evals += 1
+					exp = R.ref_report_taxon((None, 0, 1, 2), report, t)
+					if (None if got is None else int(got.key[1:])) != exp:
+						sh.violation('reportable', dict(parent=[None, 0, 1, 2], report=list(report), taxon=t, persisted=True, taxa_in_backbone_set=cut), exp, None if got is None else got.key)
+					else:
+						sh.count('lineages_crossing_genome_sets')
+				s.close()
+				engine.dispose()
 	sh.sample(dict(family='reportable_taxon', parent=list(parent), report=list(report), taxon=t))
 	return sh
 
@@ -370,6 +404,8 @@ def replay(case, kind=None):
 		return t_persisted(case['history'][0][1], len(case['history']), only=case['history']).violations[:1]
 	parent = tuple(case['parent'])
 	taxa = taxo.build_taxa(parent)
+	if kind == 'reportable' and case.get('persisted'):
+		return [v for v in t_report(1).violations if v['case'] == case][:1]
 	if kind == 'reportable':
 		from gambit.db import reportable_taxon
 		taxo.set_attrs(taxa, report=case['report'])
